@@ -5,6 +5,8 @@ import copy
 import numpy as np
 from hypothesis import strategies as st
 
+from ..core import sampled_from  # noqa: E402
+
 from .. import build, meshgen, writers
 from ..core import Failure
 
@@ -39,7 +41,7 @@ EDITS = ["xr-inplace", "xr-attrs", "xr-delete", "gdf-column", "gdf-drop", "uxda-
 @st.composite
 def _case(draw, tier):
     big = tier != "quick"
-    ctor = draw(st.sampled_from(CONSTRUCTORS))
+    ctor = draw(sampled_from(CONSTRUCTORS))
     if ctor == "ds-mpas":
         mesh = draw(meshgen.voronoi_mesh(6, 14 if big else 10, renumber=False))
     elif ctor == "ds-icon":
@@ -48,23 +50,23 @@ def _case(draw, tier):
         mesh = draw(meshgen.hull_mesh(4, 16 if big else 10, partial=True))
     mesh.pop("centers", None)
     d = {
-        "container": draw(st.sampled_from(["ndarray", "ndarray", "list"])),
-        "dtype": draw(st.sampled_from(["int64", "int32"])),
-        "start_index": draw(st.sampled_from([0, 1])),
-        "fill": draw(st.sampled_from([None, -1, "int64min"])),
+        "container": draw(sampled_from(["ndarray", "ndarray", "list"])),
+        "dtype": draw(sampled_from(["int64", "int32"])),
+        "start_index": draw(sampled_from([0, 1])),
+        "fill": draw(sampled_from([None, -1, "int64min"])),
         "lon360": draw(st.booleans()),
         "latlon": draw(st.booleans()),
-        "radius": draw(st.sampled_from([1.0, 6371229.0])),
-        "with_xyz": draw(st.sampled_from([False, False, True])),  # topology constructors: caller also supplies node_x/y/z (scaled by radius)
+        "radius": draw(sampled_from([1.0, 6371229.0])),
+        "with_xyz": draw(sampled_from([False, False, True])),  # topology constructors: caller also supplies node_x/y/z (scaled by radius)
     }
     steps = []
     for _ in range(draw(st.integers(1, 6))):
-        kind = draw(st.sampled_from(["mutate", "mutate", "edit"]))
+        kind = draw(sampled_from(["mutate", "mutate", "edit"]))
         if kind == "mutate":
-            steps.append(["mutate", draw(st.sampled_from(["orig", "copy"])), draw(st.sampled_from(MUTATORS)), draw(st.sampled_from(LAZY))])
+            steps.append(["mutate", draw(sampled_from(["orig", "copy"])), draw(sampled_from(MUTATORS)), draw(sampled_from(LAZY))])
         else:
-            steps.append(["edit", draw(st.sampled_from(["orig", "copy"])), draw(st.sampled_from(EDITS)), draw(st.sampled_from(["ugrid", "ugrid", "exodus", "scrip"]))])
-    return {"ctor": ctor, "mesh": mesh, "dialect": d, "steps": steps, "derive_before_copy": draw(st.sampled_from(LAZY + [None, None]))}
+            steps.append(["edit", draw(sampled_from(["orig", "copy"])), draw(sampled_from(EDITS)), draw(sampled_from(["ugrid", "ugrid", "exodus", "scrip"]))])
+    return {"ctor": ctor, "mesh": mesh, "dialect": d, "steps": steps, "derive_before_copy": draw(sampled_from(LAZY + [None, None]))}
 
 
 def _drop_gdf_edits(case):
